@@ -29,11 +29,49 @@ func order(be bool) binary.ByteOrder {
 	return binary.LittleEndian
 }
 
+// refusingWriter accepts a few bytes and then fails.
+type refusingWriter struct{ left int }
+
+func (w *refusingWriter) Write(p []byte) (int, error) {
+	if len(p) > w.left {
+		n := w.left
+		w.left = 0
+		return n, fmt.Errorf("verif: writer refuses further data")
+	}
+	w.left -= len(p)
+	return len(p), nil
+}
+
 // roundTrip builds the File, encodes, decodes and compares.
 func roundTrip(rec *hx.Recorder, fs *gen.FileSpec, labels map[string]int) (string, bool) {
 	in, err := gen.BuildFile(fs)
 	if err != nil {
 		return "HARNESS: cannot build file: " + err.Error(), false
+	}
+	aliased := 0
+	if fs.Aliased {
+		// the File's arrays are overlapping views of one buffer
+		if aliased = prof.AliasArrays(in); aliased > 0 {
+			labels["arrays sharing a buffer"]++
+		}
+	}
+	if fs.Prelude != "" {
+		if f0, err := gen.BuildFile(fs); err == nil {
+			oracle.Catch(func() {
+				switch fs.Prelude {
+				case "badstring":
+					f0.FileId.ProductName = "ab\xff\xfe"
+					var sink bytes.Buffer
+					if fit.Encode(&sink, f0, order(fs.BigEndian)) != nil {
+						labels["after a failing Encode"]++
+					}
+				case "failwriter":
+					if fit.Encode(&refusingWriter{left: 9}, f0, order(fs.BigEndian)) != nil {
+						labels["after a failing Encode"]++
+					}
+				}
+			})
+		}
 	}
 	var buf bytes.Buffer
 	var eerr error
@@ -43,8 +81,10 @@ func roundTrip(rec *hx.Recorder, fs *gen.FileSpec, labels map[string]int) (strin
 	if eerr != nil {
 		return fmt.Sprintf("Encode failed on an in-domain File: %v", eerr), false
 	}
-	if msg := prof.SpareIntact(in); msg != "" {
-		return "Encode wrote into memory of the caller that is not part of the File: " + msg, false
+	if aliased == 0 {
+		if msg := prof.SpareIntact(in); msg != "" {
+			return "Encode wrote into memory of the caller that is not part of the File: " + msg, false
+		}
 	}
 	// the bytes do not depend on what kind of writer receives them
 	if msg := gen.CheckWriterKind(os.Getenv("VERIF_BUILD"), buf.Len()+len(fs.Slots), buf.Bytes(), func(w io.Writer) error {
@@ -399,6 +439,11 @@ func TestC06(t *testing.T) {
 		}
 		hx.RapidCheck(t, rec, "files", func(rt *rapid.T, fail func(string, string, any)) {
 			fs := gen.GenFile(gen.D{T: rt}, gen.DefaultFileOpts())
+			// two files in five are encoded right after an Encode call that
+			// fails (the same File with a string that is not UTF-8, or into a
+			// writer that refuses data): what the next call writes must not
+			// depend on it
+			fs.Prelude = []string{"", "", "", "badstring", "failwriter"}[rapid.IntRange(0, 4).Draw(rt, "prelude")]
 			labels := map[string]int{}
 			specLabels(fs, labels)
 			rec.Eval("files", 1)
